@@ -60,7 +60,7 @@ package web
 // ---- EventHandler (C14/C19): a decoded event is dispatched exactly once with its fields; an unreadable or
 // undecodable body is answered with an error status and dispatches nothing.
 //@ func (*rawHttpHandlerV2).EventHandler
-//@   requires rhh != nil && w != nil && req != nil && rhh.handler != nil && rhh.logger != nil
+//@   requires rhh != nil && w != nil && req != nil && rhh.handler != nil && rhh.logger != nil && req.Body != nil
 //@   callsite DispatchEvent requires arg1.Title == msg.Title && arg1.Text == msg.Text && arg1.DateHappened == msg.DateHappened && arg1.Source == msg.Hostname && arg1.AggregationKey == msg.AggregationKey && arg1.SourceTypeName == msg.SourceTypeName && arg1.Tags == msg.Tags
 //@   callsite DispatchEvent requires (msg.Priority == pb.EventV2_Low) == (arg1.Priority == gostatsd.PriLow) && (msg.Priority == pb.EventV2_Normal ==> arg1.Priority == gostatsd.PriNormal)
 //@   callsite DispatchEvent requires (msg.Type == pb.EventV2_Info ==> arg1.AlertType == gostatsd.AlertInfo) && (msg.Type == pb.EventV2_Warning ==> arg1.AlertType == gostatsd.AlertWarning) && (msg.Type == pb.EventV2_Error ==> arg1.AlertType == gostatsd.AlertError) && (msg.Type == pb.EventV2_Success ==> arg1.AlertType == gostatsd.AlertSuccess)
@@ -68,8 +68,34 @@ package web
 //@   callsite WriteHeader requires calls(WriteHeader) == 0 && (calls(DispatchEvent) == 0 ==> statusCode >= 400) && (calls(DispatchEvent) == 1 ==> statusCode == 202)
 //@   ensures  calls(WriteHeader) == 1 && calls(DispatchEvent) <= 1
 //@   modifies everything
+// readBody (C14): the body is decoded by the transformation its Content-Encoding label names ("deflate": zlib,
+// "lz4": lz4, "identity" or none: as read); an unreadable body, a failing decompression or an unknown label yield an
+// error status and no body.
 //@ func (*rawHttpHandlerV2).readBody
-//@   trusted
+//@   requires rhh != nil && req != nil && req.Body != nil && rhh.logger != nil
+//@   callsite Get requires key == "Content-Encoding"
+//@   callsite DecompressWithZlib requires input == lastresult(ioutil.ReadAll, 0) && lastresult(Get, 0) == "deflate"
+//@   callsite DecompressWithLz4 requires input == lastresult(ioutil.ReadAll, 0) && lastresult(Get, 0) == "lz4"
 //@   ensures  result1 == 0 || result1 >= 400
+//@   ensures  [codec] result1 != 0 ==> len(result0) == 0
+//@   ensures  [codec] result1 == 0 ==> lastresult(ioutil.ReadAll, 1) == nil && calls(Get) == 1
+//@   ensures  [codec] result1 == 0 ==> lastresult(Get, 0) == "deflate" || lastresult(Get, 0) == "lz4" || lastresult(Get, 0) == "identity" || lastresult(Get, 0) == ""
+//@   ensures  [codec] result1 == 0 && lastresult(Get, 0) == "deflate" ==> calls(DecompressWithZlib) == 1 && calls(DecompressWithLz4) == 0 && lastresult(DecompressWithZlib, 1) == nil && result0 == lastresult(DecompressWithZlib, 0)
+//@   ensures  [codec] result1 == 0 && lastresult(Get, 0) == "lz4" ==> calls(DecompressWithLz4) == 1 && calls(DecompressWithZlib) == 0 && lastresult(DecompressWithLz4, 1) == nil && result0 == lastresult(DecompressWithLz4, 0)
+//@   ensures  [codec] result1 == 0 && (lastresult(Get, 0) == "identity" || lastresult(Get, 0) == "") ==> calls(DecompressWithLz4) == 0 && calls(DecompressWithZlib) == 0 && result0 == lastresult(ioutil.ReadAll, 0)
+//@   ensures  rhh.handler == old(rhh.handler) && rhh.logger == old(rhh.logger)
 //@   modifies everything
-//@   preserves web.rawHttpHandlerV2
+
+// MetricHandler (C14): what was decoded from the body is translated and dispatched exactly once and answered 202; a
+// body that cannot be read, decompressed or decoded is answered with an error status and dispatches nothing.
+// (Assumed: a message protobuf decoded without error has no nil map values.)
+//@ func (*rawHttpHandlerV2).MetricHandler
+//@   requires rhh != nil && w != nil && req != nil && rhh.handler != nil && rhh.logger != nil && req.Body != nil
+//@   callsite Unmarshal requires b == lastresult(rhh.readBody, 0) && lastresult(rhh.readBody, 1) == 0 && calls(Unmarshal) == 0
+//@   callsite translateFromProtobufV2 assumes pbWFG(pbMetricMap.Gauges) && pbWFC(pbMetricMap.Counters) && pbWFT(pbMetricMap.Timers) && pbWFS(pbMetricMap.Sets)
+//@   callsite translateFromProtobufV2 requires calls(Unmarshal) == 1 && lastresult(Unmarshal, 0) == nil
+//@   callsite DispatchMetricMap requires arg1 == lastresult(translateFromProtobufV2, 0) && calls(WriteHeader) == 0 && calls(DispatchMetricMap) == 0
+//@   callsite WriteHeader requires calls(WriteHeader) == 0 && (calls(DispatchMetricMap) == 0 ==> statusCode >= 400) && (calls(DispatchMetricMap) == 1 ==> statusCode == 202)
+//@   ensures  calls(WriteHeader) == 1 && calls(DispatchMetricMap) <= 1
+//@   ensures  [codec] lastresult(rhh.readBody, 1) != 0 ==> calls(DispatchMetricMap) == 0
+//@   modifies everything
